@@ -207,7 +207,7 @@ CLAIMS.update({
              "Memory-model caveat as C02. A stale relaxed get_sample_count on non-multi-copy-atomic hardware cannot be exhibited by the model.",
         ref="DESIGN.md section 4 C03 and 13"),
     "C10": dict(
-        text="Theorems in coq/Props/C10.v (39 statements, closed under the global context), for all interleavings and any number of threads: the vector "
+        text="Theorems in coq/Props/C10.v (42 statements, closed under the global context), for all interleavings and any number of threads: the vector "
              "model is linearizable to a sequential map from label values to (child id, value) with linearisation step = lookup hit / "
              "insert / remove / clear / read-lock acquisition of collect (key set) / per-child load / fetch_add through the handle, each "
              "inside its call window, real-time order respected (c10_lin, c10_real_time); lock word consistent and map accessed only under "
@@ -325,7 +325,11 @@ EXTRA = {
            "c10_child_id_never_returns: a child id belongs to one key for ever) and the linearisation search, which cannot answer NotFound "
            "because the ghost log in time order is a linearisation of the spec's action system (key snapshot at the collect's read-lock, "
            "end of the value reads at the last per-child load; simulation SimR of the spec's sequential map). Proved in stages "
-           "(c10_relaxed_spec_of_validated_partial, _partial3, _nocollect; Proofs/VecConcSpec*.v).",
+           "(c10_relaxed_spec_of_validated_partial, _partial3, _nocollect; Proofs/VecConcSpec*.v). c10_strict_failure_is_known_class: on every "
+           "validated trace a failure of the STRICT spec lies in the recorded known-finding class (c10_classifier_never_2), so the check's "
+           "KNOWN-FINDING / VIOLATION split cannot raise an alarm on a trace the model accepts (while a collection reads, the key set is stable "
+           "and each child is read once: c10_collect_keys_stable; with at most one shown child updated inside the window the collection takes "
+           "effect as one action at that child's read).",
     "C02": " c02_spec_of_validated: for ALL traces, accepted by the validator and inside the executable domain (values +-2^k with distinct exponents "
            "< 53, sorted bounds) implies the executable spec written from the property text is true - the oracle cannot raise an alarm on a trace the "
            "model accepts (subset sums of such values decode uniquely: c02_decode_unique).",
